@@ -186,7 +186,7 @@ func (f *Frame) inline(callee *ssa.Function, args []Val, bindings []Val, pos tok
 		same := true
 		for _, r := range g.rets[1:] {
 			v := r.vals[i]
-			if v.S != first.S || (v.P == nil) != (first.P == nil) || (v.P != nil && v.P.String() != first.P.String()) {
+			if v.S != first.S || (v.P == nil) != (first.P == nil) || (v.P != nil && v.P.String() != first.P.String()) || len(v.Alts) > 0 || len(first.Alts) > 0 {
 				same = false
 			}
 		}
@@ -194,10 +194,22 @@ func (f *Frame) inline(callee *ssa.Function, args []Val, bindings []Val, pos tok
 			vs = append(vs, first)
 			continue
 		}
+		isPtr := false
 		for _, r := range g.rets {
-			if r.vals[i].P != nil {
-				panic(unsupported("inlined callee " + callee.Name() + " returns different interior pointers"))
+			if r.vals[i].P != nil || len(r.vals[i].Alts) > 0 {
+				isPtr = true
 			}
+		}
+		if isPtr {
+			// different interior pointers on different return paths: guarded alternatives
+			var as []PAlt
+			for _, r := range g.rets {
+				for _, a := range f.alts(r.vals[i]) {
+					as = append(as, PAlt{and(r.cond, a.Cond), a.P})
+				}
+			}
+			vs = append(vs, Val{T: t, Alts: as})
+			continue
 		}
 		var rc, rt []string
 		for _, r := range g.rets {
@@ -330,6 +342,13 @@ func (f *Frame) applyContract(fc *FuncContract, callee *ssa.Function, sig *types
 
 func (f *Frame) havocLval(lv lval) {
 	c := f.c
+	if len(lv.heapAll) > 0 {
+		for _, n := range lv.heapAll {
+			f.frameWrite(n, "", f.curPos)
+			f.st.heaps[n] = c.fresh("hv."+n, c.heapSorts[n])
+		}
+		return
+	}
 	if lv.globalsOf != nil {
 		f.frameWrite("G_"+sanitize(lv.globalsOf.Pkg.Path()+".")+"*", "", f.curPos)
 		for _, name := range sortedMemberNames(lv.globalsOf) {
